@@ -4,6 +4,7 @@ import (
 	"bufio"
 	"fmt"
 	"io"
+	"os"
 	"os/exec"
 	"strconv"
 	"strings"
@@ -63,6 +64,10 @@ func NewSolver(kind string, timeout time.Duration) (*Solver, error) {
 		return nil, err
 	}
 	s := &Solver{kind: kind, cmd: cmd, in: in, out: bufio.NewReaderSize(outp, 1<<16), timeout: timeout}
+	if d := os.Getenv("GOSYM_SMTLOG"); d != "" {
+		f, _ := os.Create(fmt.Sprintf("%s/solver-%d.smt2", d, cmd.Process.Pid))
+		s.log = f
+	}
 	s.prelude()
 	return s, nil
 }
@@ -119,6 +124,14 @@ func (s *Solver) Check() string {
 	start := time.Now()
 	s.Send("(check-sat)\n")
 	res := "unknown"
+	// watchdog: the solvers' own soft timeouts are not always honoured
+	wd := time.AfterFunc(s.timeout+10*time.Second, func() {
+		fmt.Fprintf(logw, "SOLVER-WATCHDOG[%s]: no answer after %s, killing solver\n", s.kind, s.timeout+10*time.Second)
+		if s.cmd != nil && s.cmd.Process != nil {
+			s.cmd.Process.Kill()
+		}
+	})
+	defer wd.Stop()
 	for {
 		line, err := s.readLine()
 		if err != nil {
